@@ -1,7 +1,7 @@
 """C08 — reported statistics obey their defining formulas.
 
 Bounded exhaustive exploration: the full product of small alphabets of *raw estimation outcomes*
-(K in 1..3, Hessian family, BHHH family, estimates, log likelihoods, bootstrap sample, bounds, sample
+(K in 1..6, Hessian family, BHHH family, estimates, log likelihoods, bootstrap sample, bounds, sample
 size) is injected into the real ``biogeme.results.RawResults`` / ``bioResults`` through a stub model
 object exposing exactly the attributes ``RawResults.__init__`` reads; every cell of every tabular /
 textual view is compared with the quantity its row / column label names, recomputed by the plain-Python
@@ -11,17 +11,21 @@ families are recomputed separately, so that a value of one family in another fam
 Views of one outcome: the fields _calculate_stats stores on ``data``; get_estimated_parameters (both switches);
 get_correlation_results (every subset of the names + one with an unknown name); get_general_statistics;
 print_general_statistics; get_var_covar / get_robust_var_covar / get_bootstrap_var_covar; short_summary; __str__;
-get_html (both switches); get_f12 (both switches).
+get_html (both switches); get_f12 (both switches); for K >= 4 also the file written by write_f12 (both switches).
 
 Parts:  'o' outcomes x all views - the original product with unit-scale Hessians and identification_threshold
 1e-5, plus the product (parameter scaling: unit / all tiny / one or two badly scaled parameters / all huge) x
-(identification_threshold of the results object: constructor default, 0, 1e-9, 1e-5, 1e-2, 1, 1e4) x outcome;
+(identification_threshold of the results object: constructor default, 0, 1e-9, 1e-5, 1e-2, 1, 1e4) x outcome, plus
+the 'wide' outcomes with K = 4, 5, 6 parameters (where the list of pairs (i, j), i > j, has more than one plausible
+order, K = 5 fills exactly one line of ten F12 correlations and K = 6 needs a second one): product of Hessian family
+(diagonal / tridiagonal / dense / rank K-1 / rank 1 / zero row) x BHHH x estimates x bootstrap sample (fewer / as many
+/ more replications than parameters / a constant column) x bounds x log likelihoods;
 'c' compile_estimation_results over all ordered tuples of 1..3 models from a pool x all 2^5 flag combinations;
 'p' the same call with every entry given as a results object / the name of its pickle file / a name behind which
 nothing can be read (missing, corrupt, foreign pickle, empty file, directory) - full product of the kinds over the
 positions - and compile_results_in_directory on the same files;  'l' likelihood_ratio_test over a grid;
-'r' real estimations (real BIOGEME objects, bootstrap resamples owned through numpy.random.randint, the
-identification_threshold parameter of BIOGEME).
+'r' real estimations (real BIOGEME objects with 1, 2 and 4 parameters, bootstrap resamples owned through
+numpy.random.randint, the identification_threshold parameter of BIOGEME).
 """
 from __future__ import annotations
 
@@ -40,7 +44,8 @@ TECHNIQUE = ('bounded exhaustive enumeration of synthetic raw estimation outcome
              'exact-rational recomputation of the quantity its label names')
 RULE = ('cases: (o) one case per (raw outcome, view[, switch]) with outcome = element of the product K x Hessian x BHHH x '
         'estimates x (null, init) log likelihood x bootstrap sample x bounds x sample size [x parameter scaling x '
-        'identification threshold]; (c) one case per (ordered tuple of 1..3 pool models, 5 flags, statistics list); '
+        'identification threshold], K = 1..3 with every subset of the names for get_correlation_results, K = 4..6 with '
+        'the leave-one-out subsets (a slice with all 2^K subsets) and the F12 report also read back from write_f12; (c) one case per (ordered tuple of 1..3 pool models, 5 flags, statistics list); '
         '(p) one case per (ordered tuple of 1..3 pool models, kind of each entry - object / pickle file / one of the '
         'unreadable kinds -, call form dict / directory, flags); (l) one case per ((L1,K1),(L2,K2),alpha) and call form; '
         '(r) one case per (real model, bootstrap tape, identification threshold, view). A case is non-trivial when at least one numeric cell was '
@@ -49,7 +54,7 @@ RULE = ('cases: (o) one case per (raw outcome, view[, switch]) with outcome = el
 ASSUMPTIONS = [
     'raw outcomes are injected through a stub model object with exactly the attributes RawResults.__init__ reads; '
     'part (r) confirms on real BIOGEME objects that the same fields are filled',
-    'domain: Hessians are negative semi-definite with entries on a small dyadic grid (exactly singular or condition '
+    'domain: at most 6 parameters; Hessians are negative semi-definite with entries on a small dyadic grid (exactly singular or condition '
     'number < 100), optionally rescaled by a diagonal congruence with powers of two (eigenvalues of -H down to 2^-28, '
     'condition number up to about 1e9, still far from floating-point singularity; the library agrees with the exact '
     'reference to 1e-12 there); rescaled outcomes whose robust sandwich has an entry that is an exact or near '
@@ -105,6 +110,80 @@ V_BASE = {
     2: [[1.5, -0.5], [0.75, 0.75], [0.0, 2.0]],
     3: [[1.5, -0.5, 0.25], [2.0, 2.0, -1.0], [0.0, -0.125, 3.0]],
 }
+
+# ---- wide outcomes: K = 4, 5, 6 (part 'w').  With four or more parameters the pairs (i, j), i > j, have more than
+# one plausible enumeration order ((2,1) (3,1) (3,2) (4,1).. against (2,1) (3,1) (4,1) (3,2)..), K = 5 fills exactly one
+# line of ten correlations of the F12 report and K = 6 needs a second one.  The matrices are the leading K x K blocks
+# of 6 x 6 masters on a half-integer grid (strictly diagonally dominant, so every leading block is positive definite,
+# condition number < 10; the classical and the robust correlations of the dense family (and the bootstrap ones with
+# eight replications) are pairwise different, so a figure standing in the place of another pair's is seen).
+WIDE_K = (4, 5, 6)
+WIDE_NAMES = [
+    ['b_z', 'B2', 'b10', 'a_1', 'beta_time_car', 'Z9'],
+    ['beta_time', 'asc', 'beta_cost', 'asc_train', 'beta_headway', 'b_dist'],
+    ['b_a', 'b10', 'B2', 'b2', 'c_long_name_11', 'A0'],
+    ['mu', 'Lambda', 'alpha 1', 'lambda', 'sigma_pt_sq', 'alpha 0'],
+]
+for _p, _names in zip(NAME_POOLS, WIDE_NAMES):
+    for _k in WIDE_K:
+        _p[_k] = _names[:_k]
+A_MASTER = [[6.0, 1.0, -2.0, 0.5, 1.5, -0.5],
+            [1.0, 5.0, 1.5, -1.0, 0.5, 0.5],
+            [-2.0, 1.5, 7.0, 1.0, -0.5, 1.0],
+            [0.5, -1.0, 1.0, 6.0, 2.0, -1.0],
+            [1.5, 0.5, -0.5, 2.0, 8.0, 1.5],
+            [-0.5, 0.5, 1.0, -1.0, 1.5, 7.0]]
+A_TRI_DIAG, A_TRI_OFF = [4.0, 3.0, 2.0, 3.0, 4.0, 5.0], [1.0, -1.0, 0.5, 1.0, -0.5]
+A_DIAG = [1.0, 2.0, 4.0, 0.5, 3.0, 1.5]
+# rank K-1: M' M with M the leading (K-1) x K block of
+A_FACTOR = [[1, 1, 0, -1, 1, 0], [0, 1, 2, 1, -1, 1], [1, -1, 1, 0, 2, -1], [2, 0, -1, 1, 0, 1], [0, 1, 1, -2, 1, 2]]
+A_RANK1_VEC = [1.0, 2.0, 1.0, -1.0, 2.0, -1.0]
+B_MASTER = [[4.0, 1.0, 0.5, -1.0, 0.5, 0.0],
+            [1.0, 3.5, -0.5, 0.5, 0.0, 1.0],
+            [0.5, -0.5, 3.0, 1.0, -0.5, 0.25],
+            [-1.0, 0.5, 1.0, 5.0, 1.5, -0.5],
+            [0.5, 0.0, -0.5, 1.5, 4.0, 1.0],
+            [0.0, 1.0, 0.25, -0.5, 1.0, 4.5]]
+B_RANK1_VEC = [1.0, 2.0, -1.0, 1.0, -2.0, 3.0]
+V_MASTER = [[1.5, -0.5, 0.25, 2.0, -1.25, 0.75], [2.0, 2.0, -1.0, -1.0, 0.5, 3.0], [0.0, -0.125, 3.0, 1.0, 1.0, -2.0]]
+
+
+def _block(mat, k):
+    return [list(row[:k]) for row in mat[:k]]
+
+
+def _wide_family(k):
+    tri = [[A_TRI_DIAG[i] if i == j else (A_TRI_OFF[min(i, j)] if abs(i - j) == 1 else 0.0) for j in range(k)]
+           for i in range(k)]
+    fac = [row[:k] for row in A_FACTOR[:k - 1]]
+    rdef = [[float(sum(r[i] * r[j] for r in fac)) for j in range(k)] for i in range(k)]
+    full = _block(A_MASTER, k)
+    zrow = [[0.0 if 1 in (i, j) else full[i][j] for j in range(k)] for i in range(k)]
+    return [('nd-diag', [[A_DIAG[i] if i == j else 0.0 for j in range(k)] for i in range(k)]),
+            ('nd-tri', tri), ('nd-full', full), ('rank-def', rdef),
+            ('rank1', [[A_RANK1_VEC[i] * A_RANK1_VEC[j] for j in range(k)] for i in range(k)]),
+            ('zero-row', zrow)]
+
+
+for _k in WIDE_K:
+    A_FAMILY[_k] = _wide_family(_k)
+    B_GENERIC[_k] = _block(B_MASTER, _k)
+    B_RANK1[_k] = [[B_RANK1_VEC[i] * B_RANK1_VEC[j] for j in range(_k)] for i in range(_k)]
+    V_BASE[_k] = [v[:_k] for v in V_MASTER]
+# bootstrap replications of the wide outcomes (rows of width 6): fewer replications than parameters ('r3': the sample
+# covariance is singular), about as many ('r5'), more ('r8': regular), a parameter that never moves ('const')
+BOOT_WIDE = [
+    {'r3': [[0, 2, 6, 5, 6, 2], [1, 5, 4, 5, 1, 6], [1, 0, 1, 4, 2, 2]],
+     'r5': [[0, 2, 6, 5, 6, 2], [1, 5, 4, 5, 1, 6], [1, 0, 1, 4, 2, 2], [0, 1, 4, 2, 2, 4], [5, 1, 6, 6, 1, 5]],
+     'r8': [[0, 2, 6, 5, 6, 2], [1, 5, 4, 5, 1, 6], [1, 0, 1, 4, 2, 2], [0, 1, 4, 2, 2, 4], [5, 1, 6, 6, 1, 5],
+            [2, 0, 0, 2, 6, 5], [5, 5, 0, 4, 3, 4], [0, 2, 6, 5, 6, 2]],
+     'const': [[1, 2, 6, 5, 6, 2], [1, 5, 4, 5, 1, 6], [1, 0, 1, 4, 2, 2], [1, 1, 4, 2, 2, 4], [1, 1, 6, 6, 1, 5]]},
+    {'r3': [[1, 5, 4, 5, 1, 6], [3, 2, 3, 6, 4, 4], [4, 5, 1, 6, 6, 1]],
+     'r5': [[1, 5, 4, 5, 1, 6], [3, 2, 3, 6, 4, 4], [4, 5, 1, 6, 6, 1], [4, 0, 5, 5, 0, 4], [3, 1, 1, 3, 0, 6]],
+     'r8': [[1, 5, 4, 5, 1, 6], [3, 2, 3, 6, 4, 4], [4, 5, 1, 6, 6, 1], [4, 0, 5, 5, 0, 4], [3, 1, 1, 3, 0, 6],
+            [1, 1, 3, 0, 6, 0], [5, 0, 4, 3, 4, 0], [1, 5, 4, 5, 1, 6]],
+     'const': [[2, 5, 4, 5, 1, 6], [2, 2, 3, 6, 4, 4], [2, 5, 1, 6, 6, 1], [2, 0, 5, 5, 0, 4], [2, 1, 1, 3, 0, 6]]},
+]
 BOOT_SETS = [
     {'r2': [[1, 2, 0], [3, 1, 1]],
      'r3': [[1, 2, 0], [2, 1, 3], [4, 5, 1]],
@@ -196,14 +275,14 @@ def materialise(d, seed):
     init = {'present': 1.5 * ll - 0.5, 'zero': 0.0, 'equal': ll, 'absent': None}[d['init']]
     boot = None
     if d['boot'] != 'none':
-        rows = BOOT_SETS[seed % 2][d['boot']]
+        rows = (BOOT_SETS if k <= 3 else BOOT_WIDE)[seed % 2][d['boot']]
         boot = [[BOOT_SCALE[s8] * float(x) / dsc[i] for i, x in enumerate(r[:k])] for r in rows]
     n, nobs = N_KINDS[d['n']]
     return dict(k=k, names=list(names), values=values, hessian=hess, bhhh=bhhh, loglike=ll, init=init, null=null,
                 bootstrap=boot, bounds=bounds_of(d['bd'], values), n=n, nobs=nobs,
                 gradient=[0.001 * (i + 1) for i in range(k)], excluded=3, threads=2,
                 label=A_FAMILY[k][d['h']][0] + ('' if d.get('hsc', 'unit') == 'unit' else '*' + d['hsc']),
-                thr=THR_KINDS[d.get('thr', 'e-5')])
+                thr=THR_KINDS[d.get('thr', 'e-5')], f12file=bool(d.get('ff')), subsets=d.get('ss'))
 
 
 def outcome_space(tier, seed):
@@ -241,6 +320,32 @@ def scale_space(tier, seed):
             if k == 1 and hsc == 'mixed':
                 continue  # for K = 1 the same matrix as 'tiny'
             out.append(dict(k=k, h=h, b=b, v=v, boot=boot, bd=bd, null='present', init='present', n=0, hsc=hsc, thr=thr))
+    return out
+
+
+def wide_space(tier, seed):
+    """part 'o' continued: outcomes with K = 4, 5, 6 parameters ('ff': the F12 report is also read back from the
+    file write_f12 produces; 'ss': which subsets get_correlation_results is asked for, see subsets_of).
+    quick: the full product of a reduced alphabet for K = 4, 5 and a thin slice for K = 6; thorough: the full product
+    for K = 4, 5, 6.  Both: a slice (every Hessian, with / without bootstrap) with all 2^K subsets (quick: K = 4, 5)."""
+    out = []
+    pp = [('present', 'present')]
+    if tier == 'quick':
+        plan = [((4, 5), ('info', 'generic'), (0, 1), ('none', 'r5'), ('none', 'active'), pp, (0,), None),
+                ((6,), ('generic',), (0,), ('none', 'r8'), ('none',), pp, (0,), None),
+                ((4, 5), ('generic',), (2,), ('none', 'r8'), ('none',), pp, (1,), 'all')]
+    else:
+        plan = [(WIDE_K, tuple(B_KINDS), (0, 1), ('none', 'r3', 'r5', 'r8', 'const'), ('none', 'active', 'near'),
+                 [('present', 'present'), ('absent', 'present'), ('present', 'zero')], (0,), None),
+                (WIDE_K, ('generic', 'rank1'), (2,), ('none', 'r8'), ('none',), pp, (1,), 'all')]
+    for ks, bs, vs, boots, bds, lls, ns, ss in plan:
+        for k in ks:
+            for h, b, v, boot, bd in itertools.product(range(len(A_FAMILY[k])), bs, vs, boots, bds):
+                for (nu, i), n in itertools.product(lls, ns):
+                    d = dict(k=k, h=h, b=b, v=v, boot=boot, bd=bd, null=nu, init=i, n=n, ff=1)
+                    if ss:
+                        d['ss'] = ss
+                    out.append(d)
     return out
 
 
@@ -675,11 +780,19 @@ def view_varcovar_frames(r, ck):
                        f['cov'][i][j], ck.named_pair(i, j), f'{fam} covariance', pair_tol(ck, i, j, fam, 'cov'))
 
 
-def subsets_of(names):
+def subsets_of(names, mode='all'):
+    """subsets given to get_correlation_results.  'all': no subset, every non-empty subset, one with an unknown name;
+    'few' (default of the outcomes with K >= 4, where 2^K calls per outcome dominate the cost): no subset, the full
+    list, every leave-one-out list, one singleton, one with an unknown name."""
     out = [None]
-    for n in range(1, len(names) + 1):
-        for c in itertools.combinations(names, n):
-            out.append(list(c))
+    if mode == 'few':
+        out.append(list(names))
+        out += [[x for x in names if x != drop] for drop in names]
+        out.append([names[1]])
+    else:
+        for n in range(1, len(names) + 1):
+            for c in itertools.combinations(names, n):
+                out.append(list(c))
     if len(names) >= 2:
         out.append([names[-1], 'no_such_parameter', names[0]])
     return out
@@ -723,7 +836,7 @@ def run_views(r, m, ref, case, tag, okey, rec, views=None):
             ('general', lambda ck: view_general(r, ck)),
             ('print_general', lambda ck: view_print_general(r, ck)),
             ('varcovar_frames', lambda ck: view_varcovar_frames(r, ck))]
-    for si, sub in enumerate(subsets_of(m['names'])):
+    for si, sub in enumerate(subsets_of(m['names'], m.get('subsets') or ('all' if m['k'] <= 3 else 'few'))):
         plan.append((f'correlation:subset#{si}', lambda ck, sub=sub: view_correlation(r, ck, sub)))
     plan += text_views(r, m)
     for vname, fn in plan:
@@ -752,6 +865,7 @@ def text_views(r, m):
 
 # ----------------------------------------------------------------------------------------- tasks
 CHUNK = 24
+CHUNK_WIDE = 8
 
 
 def tasks(tier, seed):
@@ -762,6 +876,9 @@ def tasks(tier, seed):
     space = scale_space(tier, seed)
     for i in range(0, len(space), CHUNK):
         t.append(dict(part='o', seed=seed, outcomes=space[i:i + CHUNK]))
+    space = wide_space(tier, seed)
+    for i in range(0, len(space), CHUNK_WIDE):
+        t.append(dict(part='o', seed=seed, outcomes=space[i:i + CHUNK_WIDE]))
     t += extra_tasks(tier, seed)
     return t
 
@@ -1248,7 +1365,16 @@ LOGIT_DATA = [
     dict(x1=[1.0, 2.0, 3.0, 1.5, 2.5, 0.5], x2=[2.0, 1.0, 2.5, 2.5, 1.0, 2.0], choice=[1, 2, 1, 2, 2, 1]),
     dict(x1=[1.0, 2.0, 3.0, 1.5, 2.5, 0.5], x2=[2.0, 1.5, 2.0, 1.0, 3.0, 1.0], choice=[1, 2, 2, 1, 1, 2]),
 ]
-REAL_MODELS = ['ls1', 'ls2', 'logit2']
+# a least-squares model with four parameters (six observations; any resample with one deviation keeps it identified)
+REAL_DATA4 = [
+    dict(x1=[1.0, 2.0, 3.0, 4.0, 2.5, 0.5], x2=[2.0, 1.0, 2.5, 0.5, 3.0, 1.5], x3=[0.5, 1.5, 1.0, 2.0, 0.0, 2.5],
+         y=[3.0, 3.5, 5.75, 5.0, 5.5, 3.25]),
+    dict(x1=[1.0, 2.0, 3.0, 4.0, 1.5, 0.5], x2=[1.0, 2.5, 0.5, 2.0, 3.0, 1.5], x3=[2.0, 0.5, 1.5, 1.0, 0.0, 2.5],
+         y=[3.25, 4.5, 4.0, 6.25, 4.0, 3.5]),
+]
+REAL_MODELS = ['ls1', 'ls2', 'logit2', 'ls4']
+REAL_K = {'ls1': 1, 'ls2': 2, 'logit2': 2, 'ls4': 4}
+REAL_N = {'ls1': 4, 'ls2': 4, 'logit2': 6, 'ls4': 6}
 REAL_THR = ['one', 'e+4']
 
 
@@ -1268,6 +1394,11 @@ def real_biogeme(model, seed, nboot, thr='default'):
         asc = Beta(names[2][1], 0.0, None, None, 0)
         v = {1: asc + bt * Variable('x1'), 2: bt * Variable('x2')}
         ll = models.loglogit(v, None, Variable('choice'))
+    elif model == 'ls4':
+        data = REAL_DATA4[seed % 2]
+        d = db.Database('c08real', pd.DataFrame(data))
+        bs = [Beta(nm.replace(' ', '_'), 0.0, None, None, 0) for nm in names[4]]
+        ll = -((Variable('y') - bs[0] * Variable('x1') - bs[1] * Variable('x2') - bs[2] * Variable('x3') - bs[3]) ** 2)
     else:
         data = REAL_DATA[seed % 4]
         d = db.Database('c08real', pd.DataFrame(data))
@@ -1301,7 +1432,7 @@ def tape_pool(n):
 def real_tasks(tier, seed):
     t = []
     for model in REAL_MODELS:
-        n = 6 if model == 'logit2' else 4
+        n = REAL_N[model]
         pool = tape_pool(n)[:5 if tier == 'quick' else 6]
         sizes = (3,) if tier == 'quick' else (2, 3, 4)
         tapes = [None] + [list(c) for b in sizes for c in itertools.combinations(range(len(pool)), b)]
@@ -1357,7 +1488,7 @@ def check_real(model, tape, seed, rec, sample=False, thr='default'):
         in_results = 'results.py' in tb.split('\n')[-4] or '_calculate_stats' in tb
         rec.case(('r', model, repr(tape), thr, 'estimate'), ('raise', type(e).__name__), outcome=('estimate-raises', type(e).__name__))
         if in_results:
-            k = 1 if model == 'ls1' else 2
+            k = REAL_K[model]
             rec.violation(f'{ID}|bioResults-raises:{type(e).__name__}|K={k},bootstrap={"no" if tape is None else "yes"}',
                           f'estimate() raised {type(e).__name__}: {e} while computing the statistics of a real outcome [{tag}]',
                           case, expected='statistics computed', observed=f'{type(e).__name__}: {e}')
@@ -1595,12 +1726,25 @@ def view_html(r, ck, only_robust):
                 text_pair(ck, view, c, f'{b[0]}-{b[1]}', tok, fam, fld, i, j, np_)
 
 
-def view_f12(r, ck, robust):
+def f12_text(r, robust, via):
+    if via == 'get_f12':
+        return r.get_f12(robust_std_err=robust)
+    # the same report through the file writer (a new file in the worker's private directory, removed again)
+    r.write_f12(robust_std_err=robust)
+    name = r.data.F12FileName
+    try:
+        with open(name, encoding='utf-8') as fh:
+            return fh.read()
+    finally:
+        if os.path.isfile(name):
+            os.remove(name)
+
+
+def view_f12(r, ck, robust, view='get_f12'):
     m, k = ck.m, ck.m['k']
-    view = 'get_f12'
     fam = 'robust' if robust else 'classical'
     f = ck.ref['fam'][fam]
-    lines = r.get_f12(robust_std_err=robust).split('\n')
+    lines = f12_text(r, robust, view).split('\n')
     try:
         coef = lines[lines.index('END') + 1:lines.index('  -1')]
     except ValueError:
@@ -1642,8 +1786,12 @@ def view_f12(r, ck, robust):
             continue
         ck.compared += 1
         if abs(int(tok) - 100000 * refv) > 1.0 + 1e-6:
+            named = {k_: (100000 * v if isnum(v) else v) for k_, v in ck.named_pair(i, j).items()}
+            if any(p != (i, j) and isnum(f['corr'][p[0]][p[1]]) and abs(int(tok) - 100000 * f['corr'][p[0]][p[1]]) <= 1.0 + 1e-6
+                   for p in pairs):  # the figure of the same family that belongs at another position of the list
+                named = {f'{fam} correlation of another pair': float(int(tok)), **named}
             ck.fail(view, f'correlation*100000(robust_std_err={robust})', f'({i},{j})', int(tok), 100000 * refv,
-                    {k_: (100000 * v if isnum(v) else v) for k_, v in ck.named_pair(i, j).items()}, f'{fam} correlation')
+                    named, f'{fam} correlation')
 
 
 def text_views(r, m):  # noqa: F811
@@ -1652,4 +1800,6 @@ def text_views(r, m):  # noqa: F811
             ('html:robust', lambda ck: view_html(r, ck, True)),
             ('html:all', lambda ck: view_html(r, ck, False)),
             ('f12:robust', lambda ck: view_f12(r, ck, True)),
-            ('f12:classical', lambda ck: view_f12(r, ck, False))]
+            ('f12:classical', lambda ck: view_f12(r, ck, False))] + \
+           ([('f12file:robust', lambda ck: view_f12(r, ck, True, 'write_f12')),
+             ('f12file:classical', lambda ck: view_f12(r, ck, False, 'write_f12'))] if m.get('f12file') else [])
